@@ -110,6 +110,9 @@ type Fault struct {
 	FiredPage, FiredSize int
 	// FailRLock makes RLock fail.
 	FailRLock bool
+	// ReservedErr makes the probe of the RESERVED byte fail with that error,
+	// answering what the unix pager answers when fcntl(F_GETLK) fails.
+	ReservedErr error
 }
 
 var ErrInjected = errors.New("verif: injected I/O error")
@@ -144,7 +147,12 @@ func (f *Fault) RLock() error {
 	return f.P.RLock()
 }
 func (f *Fault) RUnlock() error                   { return f.P.RUnlock() }
-func (f *Fault) CheckReservedLock() (bool, error) { return f.P.CheckReservedLock() }
+func (f *Fault) CheckReservedLock() (bool, error) {
+	if f.ReservedErr != nil {
+		return true, f.ReservedErr
+	}
+	return f.P.CheckReservedLock()
+}
 
 // Event is one pager call seen by Trace.
 type Event struct {
